@@ -37,30 +37,27 @@ macro "safe_step" : tactic => `(tactic| first
   | apply safe_nextEnd
   | split)
 
-theorem safe_filterInit (enc : Bool) (f : Filter) (rest : List Filter)
-    (ih : Safe (nextFilterInit S enc rest)) : Safe (filterInit S enc f rest) := by
+theorem safe_filterInit (enc : Bool) (f : Filter) (rest : NodeOp)
+    (ih : Safe rest) : Safe (filterInit S enc f rest) := by
   cases f with
   | delta d =>
-    unfold filterInit
+    simp only [filterInit]
     repeat safe_step
   | bcj w o =>
-    unfold filterInit
-    simp only []
+    simp only [filterInit]
     repeat safe_step
   | lzma v2 dict mf nice mode =>
-    unfold filterInit
+    simp only [filterInit]
     split
-    · simp only []
-      repeat safe_step
-    · simp only []
-      repeat safe_step
+    · repeat safe_step
+    · repeat safe_step
 
 theorem safe_nextFilterInit (enc : Bool) (l : List Filter) : Safe (nextFilterInit S enc l) := by
   induction l with
   | nil => unfold nextFilterInit; exact safe_guard 0
   | cons f rest ih =>
     unfold nextFilterInit
-    exact safe_seq (safe_guard _) (safe_filterInit S enc f rest ih)
+    exact safe_seq (safe_guard _) (safe_filterInit S enc f _ ih)
 
 theorem safe_rawCoderInit (enc : Bool) (c : Chain) : Safe (rawCoderInit S enc c) := by
   intro n
